@@ -139,6 +139,23 @@ POSITIONS = {
 }
 
 
+# Spelling-dependent decisions found in emit/** and lower/** (regenerated table SPELLING_SITES) and why a consistent,
+# case-class-preserving renaming of user identifiers cannot change their outcome. Anything not listed is unaudited
+# (obligation C13_spelling_decisions_audited breaks).
+AUDITED_SPELLING = {
+    "emit/decls.rs:emit_struct:f.name.chars()": "all-digits test = tuple struct (newtype field `0`); identifiers never start with a digit",
+    "emit/expressions/indexing.rs:emit_field_expr:field.chars()": "all-digits test = tuple index `.0`; identifiers never start with a digit",
+    "emit/program.rs:emit_program:formatted.contains(\"]\\nuse \")": "looks for the end of the inner-attribute block in the formatted text, not at a name",
+    "emit/program.rs:emit_program:formatted.contains(\"]\\n\\nuse \")": "same as above",
+    "emit/program.rs:to_axum_path:path.chars()": "route path string literal, not an identifier",
+    "emit/types.rs:emit_pattern:variant.contains(\"::\")": "`::` cannot occur inside an identifier; distinguishes qualified variant paths built by lowering",
+    "emit/types.rs:emit_pattern:variant.split(\"::\")": "same as above",
+    "lower/expr.rs:lower_expr:name.chars()": "first character's case decides constructor-vs-call: the capitalised-function finding; renamings keep the case class",
+    "lower/expr.rs:lower_expr:c.is_uppercase()": "same as above",
+    "lower/mod.rs:select_newtype_checked_ctor:md.name.starts_with(\"from_\")": "`from_*` constructor convention of newtypes (vocabulary: conventions); the renamer never renames `from_*` methods",
+}
+
+
 def coq_str(s):
     return '"' + s.replace('"', '""') + '"'
 
@@ -243,6 +260,10 @@ def gen_coq(tab):
     L.append("(* every name-keyed lookup `<table>.get/contains/contains_key/get_mut(key)` in emit/** and lower/**: id, table, key derived from escape_keyword? *)")
     lrows = ["  mk_lookup %s %s %s" % (coq_str(l["id"]), coq_str(l["table"]), "true" if l["escaped"] else "false") for l in tab.get("lookups", [])]
     L.append("Definition LOOKUPS : list lookup := [\n%s\n]." % ";\n".join(lrows))
+    L.append("")
+    L.append("(* every spelling-dependent decision (sort/cmp/prefix/suffix/case/chars/split on a name, ordered maps) outside quote! bodies *)")
+    srows = ["  mk_spell %s %s" % (coq_str(x), "true" if x in AUDITED_SPELLING else "false") for x in tab.get("spelling_sites", [])]
+    L.append("Definition SPELLING_SITES : list spell := [\n%s\n]." % ";\n".join(srows))
     L.append("")
     L.append("(* `__`-prefixed identifiers written literally inside quote! bodies of the emitter *)")
     L.append("Definition FIXED_TEMPORARIES : list name := Eval vm_compute in\n  %s." % coq_name_list(tab["fixed_temporaries"]))
